@@ -301,6 +301,7 @@ printf("\n");
             if (offset < min || offset > max)
             {
               print_error_range(asm_context, "Displacement", min, max);
+              return -1;
             }
 
             offset = offset >> 2;
@@ -339,6 +340,7 @@ printf("\n");
             if (offset < min || offset > max)
             {
               print_error_range(asm_context, "Displacement", min, max);
+              return -1;
             }
 
             offset = offset >> 2;
@@ -379,6 +381,7 @@ printf("\n");
             if (offset < min || offset > max)
             {
               print_error_range(asm_context, "Displacement", min, max);
+              return -1;
             }
 
             offset = offset >> 2;
@@ -418,6 +421,7 @@ printf("\n");
             if (offset < min || offset > max)
             {
               print_error_range(asm_context, "Displacement", min, max);
+              return -1;
             }
 #endif
 
